@@ -59,8 +59,12 @@ class Effects:
         self.local_adts = set(ctx.facts.adts)
         self.direct = {}
         self.why = {}
+        self.param_writes = {}      # body id -> set of parameter locals written through (transitively, fixpoint below)
         for b in ctx.facts.fns():
             self.direct[b.id] = self._direct(b)
+        self._param_fixpoint()
+        for b in ctx.facts.fns():
+            self.direct[b.id] |= self._via_params(b)
         self._trans = {}
 
     def _adts_in_type(self, tyname, seen=None):
@@ -166,6 +170,75 @@ class Effects:
                     if inner in self.local_adts:
                         continue
                 self._record(eff, b, chain, None, "call:" + name, bi)
+        return eff
+
+    def _param_root(self, b, e):
+        """parameter local whose pointee expression e addresses (through refs, guards, indexing), else None"""
+        chain, root = field_chain(e)
+        if chain:
+            return None
+        if isinstance(root, tuple) and root and root[0] == "arg" and b.kind != "closure":
+            t = self.facts.ty(b.local_ty(root[1]))
+            if t.get("k") in ("ref", "ptr"):
+                return root[1]
+        return None
+
+    def _param_fixpoint(self):
+        facts = self.facts
+        pw = {b.id: set() for b in facts.fns()}
+        # direct: assignment through a parameter / mutating std call on a parameter
+        for b in facts.fns():
+            sy = self.ctx.sym(b)
+            for bi, si, st in b.iter_stmts():
+                if st["k"] == "assign" and st["place"]["p"] and not b.blocks[bi]["cleanup"]:
+                    r = self._param_root(b, sy.place(st["place"]))
+                    if r is not None:
+                        pw[b.id].add(r)
+            for bi, t in b.calls():
+                name = (t.get("cn") or "").rsplit("::", 1)[-1]
+                if any((t.get("cn") or "").endswith(x) for x in READ_ONLY_MUT_CALLEES) or name in NON_CONTENT:
+                    continue
+                if t.get("callee_local") and not t.get("trait"):
+                    continue
+                for a in t["args"]:
+                    p = a.get("copy") or a.get("move")
+                    if p is None:
+                        continue
+                    ty = facts.ty(p["ty"])
+                    if ty.get("k") == "ref" and ty.get("mut"):
+                        r = self._param_root(b, sy.operand(a))
+                        if r is not None:
+                            pw[b.id].add(r)
+        changed = True
+        while changed:
+            changed = False
+            for b in facts.fns():
+                sy = self.ctx.sym(b)
+                for bi, t in b.calls():
+                    tgt = t.get("resolved") or t.get("callee")
+                    if tgt not in pw or not pw[tgt]:
+                        continue
+                    for pi in pw[tgt]:
+                        if pi - 1 < len(t["args"]):
+                            r = self._param_root(b, sy.operand(t["args"][pi - 1]))
+                            if r is not None and r not in pw[b.id]:
+                                pw[b.id].add(r)
+                                changed = True
+        self.param_writes = pw
+
+    def _via_params(self, b):
+        """effects of calls to local callees that write through a parameter bound to a field path here"""
+        eff = set()
+        sy = self.ctx.sym(b)
+        for bi, t in b.calls():
+            tgt = t.get("resolved") or t.get("callee")
+            for pi in self.param_writes.get(tgt, ()):
+                if pi - 1 >= len(t["args"]):
+                    continue
+                e = sy.operand(t["args"][pi - 1])
+                chain, root = field_chain(e)
+                if chain and not self._is_fresh_local(b, root):
+                    self._record(eff, b, chain, None, "callee-writes-param:" + (tgt or "?").rsplit("::", 1)[-1], bi)
         return eff
 
     def _is_old_value(self, op, target, fname):
